@@ -358,4 +358,25 @@ def stepEv (s : St) : Ev → St
 
 def runEvs (s : St) (evs : List Ev) : St := evs.foldl stepEv s
 
+/-! ### seal material of a separately sealed namespace (`SealManager.performRootRotation`, rotate.go)
+
+A root-key rotation of the namespace whose storage prefix is `pre` (`""` for the root namespace, `namespaces/<uuid>/`
+otherwise) writes, in this order: the stored keys (seal-wrapped new root key), the keyring and the root-key entry
+(`RotateRootKey` → `persistKeyring`, both under the barrier's `metaPrefix`), the namespace's copy of the new seal key
+and the new seal configuration. `persistKeyring` additionally deletes the legacy `core/master` entry — of the root
+namespace only. -/
+
+def rotationRel : List String :=
+  ["core/hsm/barrier-unseal-keys", "core/keyring", "core/root-key", "core/shamir-kek", "core/seal-config"]
+
+/-- (kind, physical key) of every write of the rotation -/
+def rotationWrites (pre : String) : List (String × String) :=
+  (rotationRel.map fun r => ("put", pre ++ r)) ++ (if pre == "" then [("delete", "core/master")] else [])
+
+/-- NOT the code (findings F49/F50, repaired): the seal-key copy written to the bare path and the legacy entry deleted
+whatever the namespace -/
+def rotationWritesUnprefixed (pre : String) : List (String × String) :=
+  [("put", pre ++ "core/hsm/barrier-unseal-keys"), ("put", pre ++ "core/keyring"), ("put", pre ++ "core/root-key"),
+   ("put", "core/shamir-kek"), ("put", pre ++ "core/seal-config"), ("delete", "core/master")]
+
 end Obao.Confine
